@@ -54,6 +54,12 @@ def generate(rng, tier):
                 cases.append(_mk(cap, p0, [['w', 1, 0, 0]] * (cap // 8 + 2) + [['r', R.INF]], hc0=p0 - 2**32 + 8))
                 cases.append(_mk(cap, p0, ops, hc0=p0 - 2**32))
             cases.append(_mk(cap, p0, [['w', 1, cap // 8 + 1, 0], ['w', -1, 0, 0], ['w', 14, 0, 0], ['r', -1], ['r', 1]]))
+    # head cache stale by about one lap: the cache was refreshed to a position with a large index, the consumer then
+    # moved into the next lap (small index), the producers filled the ring up to `a` bytes before the end of the data
+    # area without another refresh; the next record (rq bytes) does not fit behind the tail, the first capacity check
+    # fails on the cache and passes on the real head, and the front check must use the *refreshed* head:
+    # refused iff b < rq, where b is the real head index.  (cache index = cap - a >= rq always.)
+    cases += lap_stale_cases(rng, big)
     # exhaustive / sampled short sequences over the write-length x read-limit alphabet
     for cap in (8, 16, 32, 64):
         alpha = _alphabet(cap)
@@ -101,6 +107,40 @@ def generate(rng, tier):
     cases += gen_conc(rng, tier)
     rng.shuffle(cases)
     return cases
+
+
+def lap_stale_cases(rng, big):
+    out = []
+    for cap in (32, 64, 128, 1024):
+        maxl = cap // 8
+        lens = sorted({maxl, maxl - 1, max(1, maxl // 2), 1, 9})
+        for ln in lens:
+            if ln > maxl:
+                continue
+            rq = R.align8(ln + 8)
+            for a in range(8, rq, 8):                 # bytes left behind the tail: the record does not fit
+                bs = [b for b in range(0, rq + 9, 8) if a + b >= rq and a + b <= cap - 16]
+                if not big and len(bs) > 3:
+                    bs = [bs[0], bs[len(bs) // 2], bs[-1]]
+                for b in bs:                          # real head index: b < rq -> must be refused, b >= rq -> accepted
+                    for lap in ((1, 2**22 + 1) if big else (1,)):
+                        w_end = (lap + 1) * cap
+                        hc = w_end - cap - a          # start position = head cache for the whole prelude
+                        if hc < 0 or cap - a < rq:
+                            continue
+                        ops = []
+                        ops += [['w', 1, 0, 0]] * ((a + b) // 8)          # tail -> w_end - cap + b
+                        ops += [['r', R.INF], ['r', R.INF]]                # head -> w_end - cap + b
+                        ops += [['w', 2, 0, 0]] * ((cap - a - b) // 8)                # tail -> w_end - a, no refresh
+                        ops += [['w', 3, ln, 0], ['s']]                    # the write in question
+                        ops += [['r', R.INF], ['r', R.INF], ['r', R.INF], ['w', 4, 0, 0], ['r', R.INF]]
+                        out.append(_mk(cap, hc, ops, hc0=hc, dumps=(cap <= 64)))
+    if not big and len(out) > 110:
+        keep = [c for c in out if c['cap'] <= 64]
+        rest = [c for c in out if c['cap'] > 64]
+        rng.shuffle(rest)
+        out = keep + rest[:max(0, 110 - len(keep))]
+    return out
 
 
 def _conc(cap, p0, pre, limits, progs, sched, post=None, stops=None):
